@@ -13,6 +13,8 @@ Tie
       errors    empty record / empty residual window raise <-> model `none`
       exact     model closed-form oscillator stepping vs srs.srs histories (numerical shadow of
                 theorem ramp_invariant)
+      vrs       srs.vrs on uniform / log / random grids, with and without off-grid Fn, vs the model's
+                area weights and transmissibility (psd.interp's output fed to both sides)
 Oracle (model-free): exact oscillator response by an augmented-matrix exponential
 (scipy.linalg.expm, dimensionless time) under each initial-condition rule, window and peak
 statistic; spectrum relations; srs_frf / vrs / Miles closed forms.
@@ -34,7 +36,7 @@ THEOREMS = [
         "exact_step_affine a_coeffs_are_charpoly ramp_invariant ramp_invariant_absacce "
         "ramp_invariant_reldisp pvelo_eq pacce_eq dc_gain suma_pos steady_addback_is_dc_gain "
         "lfilter_scale lfilter_add lfilter_append_take peak_abs_eq_max_pos_neg peak_total_ge "
-        "eqsine_eq column_permutation window_lengths nzeros_eq"
+        "eqsine_eq column_permutation window_lengths nzeros_eq vrs_quadrature_is_trapezoid_plus_half_end_cells"
     ).split()
 ]
 TRUSTED = [
@@ -43,7 +45,8 @@ TRUSTED = [
     "scipy.signal.lfilter modelled as the order<=2 transposed direct-form-II recursion with zero state (measured every run)",
     "theorems are over the reals: round-off of the recursion is measured, not proved (conditioning domain sr/fn <= 2000)",
     "roll-off resamplers (dsp.resample, scipy.signal.resample, filtfilt, interp1d) are not modelled: their output is fed to both sides (contract: C19)",
-    "srs_frf, vrs and Miles closed forms are checked by the oracle only",
+    "srs_frf and Miles closed forms are checked by the oracle only; vrs: quadrature weights and transmissibility are modelled "
+    "(correspondence) and the weights are proved to be trapezoid + half end cells; psd.interp is fed to both sides",
 ]
 RULE = (
     "coef: seeded (Q, sr, fn) with Q in (0.5, 200], sr/fn log-uniform in [2.05, 2000] plus wn = 0, six stypes; "
@@ -431,7 +434,7 @@ def correspondence(ctx):
             st = STYPES[int(rng.integers(0, 6))]
             ic = ICS[int(rng.integers(0, 4))]
             pk = PEAKS[int(rng.integers(0, 6))]
-            tm = TIMES[int(rng.integers(0, 3))]
+            tm = TIMES[(i // 3) % 3]
             es = bool(rng.integers(0, 2))
             Q = float(rng.choice([5.0, 10.0, 25.0, 50.0]))
             sr = float(rng.choice([200.0, 1000.0, 2048.0]))
@@ -473,6 +476,8 @@ def correspondence(ctx):
                 nt = _cmp_hist(ctx, "rolloff", inp, impl, reps, keys, extra_scale=addb / (Q if es else 1.0), floors=fl)
                 ctx.case(("roll", roll, st, ic, pk, tm, es, Q, sr, tuple(freqs), sig2d.tobytes()), nontrivial=nt,
                          branch="rolloff:%s:%s" % (roll, "resampled" if (trig or roll == "prefilter") else "not-needed"))
+                if trig or roll == "prefilter":
+                    ctx.count("rolloff:%s:resampled:%s" % (roll, tm))
 
             add(lines, cb)
 
@@ -528,6 +533,63 @@ def correspondence(ctx):
 
             add([line], cb)
 
+    # ---- stream vrs (area weights + transmissibility; psd.interp's output is fed to both sides) ------
+    import warnings
+
+    from pyyeti import psd as pyp
+
+    Fs = np.array([20.0, 150.0, 600.0, 2000.0])
+    for i in range(ctx.pick(16, 80)):
+        Pp = rng.uniform(0.001, 0.1, 4)
+        Qv = float(rng.choice([5.0, 10.0, 25.0, 50.0]))
+        lin = bool(rng.integers(0, 2))
+        gk = ["uniform", "log", "random", "short"][i % 4]
+        if gk == "uniform":
+            freq = np.arange(20.0, 2000.0, float(rng.choice([2.0, 5.0, 7.5])))
+        elif gk == "log":
+            freq = np.geomspace(20.0, 2000.0, int(rng.choice([50, 300, 1200])))
+        elif gk == "random":
+            freq = np.unique(np.hstack(([20.0, 2000.0], rng.uniform(20.0, 2000.0, int(rng.choice([30, 400]))))))
+        else:
+            freq = np.sort(rng.uniform(20.0, 2000.0, [1, 2, 3][(i // 4) % 3]))
+        Fn = None if (i // 4) % 2 == 0 else np.sort(rng.uniform(30.0, 1500.0, int(rng.integers(1, 5))))
+        getresp = bool(rng.integers(0, 2))
+        try:
+            with warnings.catch_warnings():
+                warnings.simplefilter("ignore")
+                r = srs.vrs((Fs, Pp), freq, Qv, linear=lin, Fn=Fn, getresp=getresp)
+            impl = np.asarray(r[0] if getresp else r, float)
+        except (IndexError, ValueError) as e:
+            impl = "raise " + type(e).__name__
+        grid = freq if Fn is None else np.unique(np.hstack((freq, Fn)))
+        fns = grid if Fn is None else Fn
+        pfull = np.asarray(pyp.interp((Fs, Pp), grid, lin), float)
+        sel = list(range(len(fns))) if len(fns) <= 8 else sorted(set(int(v) for v in rng.integers(0, len(fns), 8)))
+        body = " ".join("%s %s" % (_bits(f), _bits(v)) for f, v in zip(grid, pfull))
+        lines = ["vrs %s %s %s" % (_bits(Qv), _bits(fns[k]), body) for k in sel]
+
+        def cb(reps, impl=impl, sel=sel, fns=fns, gk=gk, Fn=Fn, freq=freq, Pp=Pp, Qv=Qv, lin=lin):
+            inp = {"kind": "vrs", "spec_f": Fs.tolist(), "spec_p": Pp.tolist(), "linear": lin, "grid": gk if gk != "short" else "random",
+                   "Fn": None if Fn is None else Fn.tolist(), "freq": freq.tolist(), "Q": Qv}
+            br = "vrs:%s%s" % (gk, "+Fn" if Fn is not None else "")
+            ctx.case(("vrs", gk, Qv, lin, freq.tobytes(), None if Fn is None else Fn.tobytes()), nontrivial=len(freq) > 2, branch=br)
+            if isinstance(impl, str):
+                ctx.count("vrs:raises")
+                if any(r != "none" for r in reps):
+                    ctx.disagree("vrs", inp, impl, reps[0][:40])
+                return
+            for k, rep in zip(sel, reps):
+                if rep in ("none", "bad-op"):
+                    ctx.disagree("vrs", inp, float(impl[k]), rep)
+                    return
+                m = _unbits(rep)
+                _room(ctx, "vrs", abs(m - impl[k]) / (1e-9 * abs(impl[k])))
+                if not abs(m - impl[k]) <= 1e-9 * abs(impl[k]):
+                    ctx.disagree("vrs", dict(inp, Fn_value=float(fns[k])), float(impl[k]), m)
+                    return
+
+        add(lines, cb)
+
     # ---- run the driver once, dispatch ----------------------------------------------------------
     reps = drv.ask(req)
     for start, cnt, cb in post:
@@ -539,7 +601,8 @@ def correspondence(ctx):
         + ["stype:" + s for s in STYPES] + ["ic:" + s for s in ICS] + ["peak:" + s for s in PEAKS]
         + ["time:" + s for s in TIMES] + ["eqsine:True", "eqsine:False", "packaging:1-D", "samples:1", "samples:>1",
                                           "freq:0Hz", "error:empty-record", "error:empty-residual-window"]
-        + ["rolloff:%s:resampled" % r for r in ROLLS] + ["exact:" + s for s in STYPES]
+        + ["rolloff:%s:resampled:%s" % (r, t) for r in ROLLS for t in TIMES] + ["exact:" + s for s in STYPES]
+        + ["vrs:uniform", "vrs:log", "vrs:random", "vrs:uniform+Fn", "vrs:log+Fn", "vrs:random+Fn", "vrs:raises"]
     )
 
 
@@ -550,22 +613,50 @@ def correspondence(ctx):
 _ORACLE_ROOM = [0.0]
 
 
-def _exact_history(x, sr, fn, Q, ic, nz):
-    """Exact oscillator response to the piecewise-linear input: states by an augmented-matrix
-    exponential in dimensionless time (U = wn^2 u, V = wn v).  Returns dict stype -> history over
-    the len(x) + nz samples (the record followed by nz samples of zero base acceleration under the
-    code's padding rule)."""
+def _shift(sig2d, ic):
+    """the ic rule applied to the record (numpy, independent of srs._process_ic)"""
+    if ic == "zero":
+        return sig2d.copy()
+    if ic == "mshift":
+        return sig2d - sig2d.mean(axis=0)
+    return sig2d - sig2d[0]
+
+
+def _upsample(sg, sr, roll, mf, ppc=12):
+    """the documented roll-off resampling, called on the library routines directly (not through
+    srs.linroll/lanroll/fftroll/preroll): -> (signal, sample rate).  The resamplers' own
+    contract is C19; here only *where* srs applies them and what it does afterwards matters."""
+    from scipy import signal as sps
+
+    if roll == "prefilter":
+        return sps.filtfilt(np.array([0.8767, 1.7533, 0.8767]), np.array([1, 1.6296, 0.8111, 0.0659]), sg, axis=0), sr
+    N = sg.shape[0]
+    if roll == "none" or mf == 0 or not (sr / mf < ppc) or N <= 1:
+        return sg, sr
+    factor = int(math.ceil(ppc / (sr / mf)))
+    if roll == "linear":
+        told = np.arange(N) / sr
+        tnew = np.linspace(0.0, told[-1], N * factor - 1)
+        return np.column_stack([np.interp(tnew, told, sg[:, c]) for c in range(sg.shape[1])]), sr * factor
+    if roll == "fft":
+        if N & 1:
+            return sps.resample(sg[:-1], factor * (N - 1), axis=0), sr * factor
+        return sps.resample(sg, factor * N, axis=0), sr * factor
+    if roll == "lanczos":
+        from pyyeti import dsp
+
+        return dsp.resample(sg, factor, 1, pts=65, axis=0), sr * factor
+    raise ValueError(roll)
+
+
+def _exact_history(drive, s1, sr, fn, Q, ic, nz):
+    """Exact oscillator response to the piecewise-linear input `drive` (the shifted, possibly
+    up-sampled record) followed by nz samples of zero base acceleration under the code's padding
+    rule: states by an augmented-matrix exponential in dimensionless time (U = wn^2 u, V = wn v),
+    at rest one sample before the record.  Returns dict stype -> history (len(drive) + nz)."""
     from scipy.linalg import expm
 
-    x = np.asarray(x, float)
-    N = x.shape[0]
-    s1 = x[0]
-    if ic == "zero":
-        drive = x
-    elif ic == "shift" or ic == "steady":
-        drive = x - s1
-    else:
-        drive = x - x.mean()
+    drive = np.asarray(drive, float)
     pad = np.zeros(nz) - (s1 if ic == "steady" else 0.0)
     drive = np.concatenate([drive, pad])
     zeta = 0.5 / Q
@@ -627,30 +718,38 @@ def _oracle_srs(case):
     sig = np.asarray(case["sig"], float)
     sr, freqs, Q = case["sr"], case["freq"], case["Q"]
     st, ic, pk, tm, es = case["stype"], case["ic"], case["peak"], case["time"], case["eqsine"]
-    res = _call_srs(srs, sig, sr, freqs, Q, st, ic, pk, tm, es)
+    roll = case.get("rolloff", "none")
+    res = _call_srs(srs, sig, sr, freqs, Q, st, ic, pk, tm, es, rolloff=roll)
     inp = dict(case)
+    rtag = "" if roll == "none" else ":rolloff=" + roll
     if res[0] == "raise":
-        fails.append({"family": "srs-raises:%s:ic=%s:time=%s" % (st, ic, tm), "what": "srs.srs raises " + res[1],
+        fails.append({"family": "srs-raises:%s:ic=%s:time=%s%s" % (st, ic, tm, rtag), "what": "srs.srs raises " + res[1],
                       "input": inp, "observed": res[1], "required": "a spectrum"})
         return fails
     _, sh, hist, sr_out, tvec = res
     sig2d = sig.reshape(-1, 1) if sig.ndim == 1 else sig
-    N, H = sig2d.shape
+    H = sig2d.shape[1]
+    # the record the oscillators see: ic rule, then the roll-off resampling at the (new) rate sr
+    sg, sr = _upsample(_shift(sig2d, ic), sr, roll, max(freqs))
+    N = sg.shape[0]
     pos = [f for f in freqs if f > 0]
     nz = int(math.ceil(sr / min(pos))) if (pos and tm != "primary") else 0
     want_len = {"primary": N, "total": N + nz, "residual": nz}[tm]
     t0 = N if tm == "residual" else 0
-    if hist.shape != (want_len, H, len(freqs)) or tvec.shape != (want_len,) or \
-            (want_len and abs(tvec[0] - t0 / sr) > 1e-12 * max(1.0, t0 / sr)):
-        fails.append({"family": "srs-window:time=%s" % tm, "what": "history/time vector does not cover the stated window",
-                      "input": inp, "observed": {"hist_shape": list(hist.shape), "t0": float(tvec[0]) if tvec.size else None},
-                      "required": {"hist_shape": [want_len, H, len(freqs)], "t0": t0 / sr}})
+    if hist.shape != (want_len, H, len(freqs)) or tvec.shape != (want_len,) or sr_out != sr or \
+            (want_len and abs(tvec[0] - t0 / sr) > 1e-12 * max(1.0, t0 / sr)) or \
+            (want_len > 1 and abs((tvec[-1] - tvec[0]) * sr - (want_len - 1)) > 1e-9 * want_len):
+        fails.append({"family": "srs-window:time=%s%s" % (tm, rtag),
+                      "what": "history/time vector does not cover the stated window (start, length, sample rate)",
+                      "input": inp,
+                      "observed": {"hist_shape": list(hist.shape), "t0": float(tvec[0]) if tvec.size else None, "sr": sr_out},
+                      "required": {"hist_shape": [want_len, H, len(freqs)], "t0": t0 / sr, "sr": sr}})
         return fails
     for j, f in enumerate(freqs):
         if f > 0 and sr / f > 2000:
             continue
         for c in range(H):
-            ex = _exact_history(sig2d[:, c], sr, f, Q, ic, nz)[st]
+            ex = _exact_history(sg[:, c], sig2d[0, c], sr, f, Q, ic, nz)[st]
             win = ex[t0:] / (Q if es else 1.0)
             ih = hist[:, c, j]
             add = abs(sig2d[0, c]) if ic == "steady" else 0.0
@@ -665,14 +764,14 @@ def _oracle_srs(case):
             _ORACLE_ROOM[0] = max(_ORACLE_ROOM[0], err / (2e-7 * scale))
             if err > 2e-7 * scale:
                 k = int(np.argmax(np.abs(ih - win)))
-                fails.append({"family": "srs-hist:%s:ic=%s:time=%s%s" % (st, ic, tm, ":0Hz" if f == 0 else ""),
+                fails.append({"family": "srs-hist:%s:ic=%s:time=%s%s%s" % (st, ic, tm, ":0Hz" if f == 0 else "", rtag),
                               "what": "response history differs from the exact oscillator response to the linearly interpolated input",
                               "input": dict(inp, freq_index=j, column=c),
                               "observed": {"k": k, "hist": float(ih[k])}, "required": {"k": k, "hist": float(win[k])}})
                 return fails
             want = _peak(pk, ih)
             if abs(sh[j, c] - want) > 1e-9 * max(scale, abs(want)):
-                fails.append({"family": "srs-peak:%s:time=%s" % (pk, tm),
+                fails.append({"family": "srs-peak:%s:time=%s%s" % (pk, tm, rtag),
                               "what": "spectrum value is not the stated peak statistic of the returned history",
                               "input": dict(inp, freq_index=j, column=c), "observed": float(sh[j, c]), "required": want})
                 return fails
@@ -776,7 +875,22 @@ def _oracle_frf(case):
     return fails
 
 
+_VRS_ROOM = {"fine": 0.0}
+
+
+def _spec_psd(F, P, f, linear):
+    """the PSD specification evaluated at f (inside its frequency range): straight lines in linear
+    or in log-log coordinates -- the documented meaning of `linear`"""
+    if linear:
+        return np.interp(f, F, P)
+    return np.exp(np.interp(np.log(f), np.log(F), np.log(P)))
+
+
 def _oracle_vrs(case):
+    """vrs / Miles against (i) the quadrature the code documents in its source comment ("delta_f for
+    area calculation": cell-centred widths, one-sided end cells), written independently as the
+    trapezoid rule plus half an end cell at each end, and (ii) a fine-grid numerical integral of
+    PSD x |H|^2 over the grid span (the docstring's definition without a pinned quadrature)."""
     import warnings
 
     from pyyeti import srs
@@ -786,27 +900,60 @@ def _oracle_vrs(case):
     P = np.asarray(case["spec_p"], float)
     freq = np.asarray(case["freq"], float)
     Q = case["Q"]
+    linear = bool(case.get("linear", True))
+    Fn = case.get("Fn")
     with warnings.catch_warnings():
         warnings.simplefilter("ignore")
-        z, miles, resp = srs.vrs((F, P), freq, Q, linear=True, getresp=True)
+        z, miles, resp = srs.vrs((F, P), freq, Q, linear=linear, Fn=Fn, getresp=True)
+        z2 = srs.vrs((F, P), freq, Q, linear=linear, Fn=Fn)
     z = np.asarray(z, float)
     zeta = 0.5 / Q
-    psd = np.interp(freq, F, P)
-    df = np.empty(len(freq))
-    df[1:-1] = (freq[2:] - freq[:-2]) / 2
-    df[0] = freq[1] - freq[0]
-    df[-1] = freq[-1] - freq[-2]
-    want = np.empty(len(freq))
-    for i, fn in enumerate(freq):
-        p = freq / fn
-        T2 = (1 + (2 * zeta * p) ** 2) / ((1 - p ** 2) ** 2 + (2 * zeta * p) ** 2)
-        want[i] = math.sqrt(np.sum(df * T2 * psd))
-    wm = np.sqrt(np.pi / 2 * freq * Q * psd)
-    if z.shape != want.shape or np.max(np.abs(z - want)) > 1e-9 * np.max(want):
-        fails.append({"family": "vrs:integral", "what": "vrs differs from sqrt(sum df |T|^2 psd)", "input": case,
-                      "observed": z.tolist()[:8], "required": want.tolist()[:8]})
-    if np.max(np.abs(np.asarray(miles, float) - wm)) > 1e-9 * np.max(wm):
-        fails.append({"family": "vrs:miles", "what": "Miles estimate differs from sqrt(pi/2 fn Q psd(fn))", "input": case,
+    if Fn is None:
+        grid, fns = freq, freq
+    else:
+        fns = np.asarray(Fn, float)
+        grid = np.unique(np.hstack((freq, fns)))
+    gtag = case.get("grid", "uniform") + (":off-grid-Fn" if Fn is not None else "")
+    psd = _spec_psd(F, P, grid, linear)
+    want = np.empty(len(fns))
+    ends = np.empty(len(fns))
+    for i, fn in enumerate(fns):
+        p = grid / fn
+        g = (1 + (2 * zeta * p) ** 2) / ((1 - p ** 2) ** 2 + (2 * zeta * p) ** 2) * psd
+        ends[i] = (grid[1] - grid[0]) / 2 * g[0] + (grid[-1] - grid[-2]) / 2 * g[-1]
+        want[i] = math.sqrt(np.trapezoid(g, grid) + ends[i])
+    wm = np.sqrt(np.pi / 2 * fns * Q * _spec_psd(F, P, fns, linear))
+    if not np.array_equal(np.asarray(resp["f"], float), grid):
+        fails.append({"family": "vrs:grid:" + gtag, "what": "response frequency vector is not the union of freq and Fn",
+                      "input": case, "observed": np.asarray(resp["f"]).tolist()[:8], "required": grid.tolist()[:8]})
+        return fails
+    if z.shape != want.shape or np.max(np.abs(z - want) / want) > 1e-9 or np.max(np.abs(np.asarray(z2, float) - want) / want) > 1e-9:
+        k = int(np.argmax(np.abs(z - want) / want)) if z.shape == want.shape else 0
+        fails.append({"family": "vrs:integral:" + gtag,
+                      "what": "vrs differs from sqrt(sum PSD |H|^2 delta_f) with cell-centred delta_f (trapezoid + half end cells)",
+                      "input": case, "observed": {"Fn": float(fns[k]), "vrs": float(z.ravel()[k])},
+                      "required": {"Fn": float(fns[k]), "vrs": float(want[k])}})
+    # fine-grid integral of PSD |H|^2 over the grid span (+ the two half end cells the code adds): on
+    # dense log-spaced grids, an octave inside the grid.  Unchanged code: trapezoid error ~1e-6;
+    # a forward-difference (left Riemann) sum is off by (r - 1)/4 ~ 4e-4 .. 8e-4 there.  (With an off-grid
+    # Fn inserted at a Q = 25 resonance the trapezoid rule itself is only good to ~7e-5: not used.)
+    if case.get("grid") == "log" and len(grid) >= 1400 and Fn is None:
+        ok = np.where((fns >= 2 * grid[0]) & (fns <= grid[-1] / 2))[0]
+        ff = np.unique(np.hstack((np.geomspace(grid[0], grid[-1], 200001), F[(F >= grid[0]) & (F <= grid[-1])])))
+        pf = _spec_psd(F, P, ff, linear)
+        for i in ok[:: max(1, len(ok) // 5)][:6]:
+            p = ff / fns[i]
+            fine = math.sqrt(np.trapezoid((1 + (2 * zeta * p) ** 2) / ((1 - p ** 2) ** 2 + (2 * zeta * p) ** 2) * pf, ff) + ends[i])
+            rel = abs(z.ravel()[i] - fine) / fine
+            _VRS_ROOM["fine"] = max(_VRS_ROOM["fine"], rel / 1e-4)
+            if rel > 1e-4:
+                fails.append({"family": "vrs:fine-grid-integral:" + gtag,
+                              "what": "vrs differs from the numerical integral of PSD |H|^2 over the grid span by more than 1e-4",
+                              "input": case, "observed": {"Fn": float(fns[i]), "vrs": float(z.ravel()[i])},
+                              "required": {"Fn": float(fns[i]), "vrs": float(fine)}})
+                break
+    if np.asarray(miles).shape != wm.shape or np.max(np.abs(np.asarray(miles, float) - wm)) > 1e-9 * np.max(wm):
+        fails.append({"family": "vrs:miles:" + gtag, "what": "Miles estimate differs from sqrt(pi/2 fn Q psd(fn))", "input": case,
                       "observed": np.asarray(miles).tolist()[:8], "required": wm.tolist()[:8]})
     return fails
 
@@ -815,8 +962,6 @@ def _oracle_case(case):
     kind = case.get("kind")
     try:
         if kind == "srs":
-            if case.get("rolloff", "none") != "none":
-                return []
             return _oracle_srs(case)
         if kind == "relations":
             return _oracle_relations(case)
@@ -836,7 +981,7 @@ def _hint_cases(hints, rng):
         inp = h.get("input") or {}
         if inp.get("kind") == "srs":
             c = {k: inp[k] for k in ("kind", "sig", "sr", "freq", "Q", "stype", "ic", "peak", "time", "eqsine")}
-            c["rolloff"] = "none"
+            c["rolloff"] = inp.get("rolloff", "none")
             if len(np.asarray(c["sig"]).reshape(-1)) == 0:
                 continue
             out.append(c)
@@ -882,16 +1027,43 @@ def search(ctx, hints):
                       "srs_frq": np.sort(rng.uniform(2.0, 480.0, int(rng.integers(1, 6)))).tolist(),
                       "Q": float(rng.choice([5.0, 10.0, 25.0, 50.0]))})
         F = np.array([20.0, 150.0, 600.0, 2000.0])
-        cases.append({"kind": "vrs", "spec_f": F.tolist(), "spec_p": rng.uniform(0.001, 0.1, 4).tolist(),
-                      "freq": np.arange(20.0, 2000.0, float(rng.choice([2.0, 5.0, 7.5]))).tolist(),
-                      "Q": float(rng.choice([5.0, 10.0, 25.0]))})
+        Pp = rng.uniform(0.001, 0.1, 4).tolist()
+        Qv = float(rng.choice([5.0, 10.0, 25.0]))
+        lin = bool(i % 2)
+        offgrid = np.sort(rng.uniform(45.0, 950.0, int(rng.integers(1, 5)))).tolist()
+        cases.append({"kind": "vrs", "spec_f": F.tolist(), "spec_p": Pp, "linear": lin, "grid": "uniform", "Fn": None,
+                      "freq": np.arange(20.0, 2000.0, float(rng.choice([2.0, 5.0, 7.5]))).tolist(), "Q": Qv})
+        cases.append({"kind": "vrs", "spec_f": F.tolist(), "spec_p": Pp, "linear": lin, "grid": "log", "Fn": None,
+                      "freq": np.geomspace(20.0, 2000.0, int(rng.choice([1500, 3000]) if i % 4 < 3 else 400)).tolist(), "Q": Qv})
+        cases.append({"kind": "vrs", "spec_f": F.tolist(), "spec_p": Pp, "linear": lin, "grid": "uniform", "Fn": offgrid,
+                      "freq": np.arange(20.0, 2000.0, float(rng.choice([0.5, 1.0, 2.0]))).tolist(), "Q": Qv})
+        cases.append({"kind": "vrs", "spec_f": F.tolist(), "spec_p": Pp, "linear": lin, "grid": "log", "Fn": offgrid,
+                      "freq": np.geomspace(20.0, 2000.0, int(rng.choice([700, 1500, 2500]))).tolist(), "Q": Qv})
+        cases.append({"kind": "vrs", "spec_f": F.tolist(), "spec_p": Pp, "linear": lin, "grid": "random", "Fn": None,
+                      "freq": np.unique(np.hstack(([20.0, 2000.0], rng.uniform(20.0, 2000.0, 1500)))).tolist(), "Q": Qv})
+    # roll-off: every resampler x every window, resampling triggered (sr / max(freq) < ppc)
+    for roll in ROLLS:
+        for tm in TIMES:
+            for k in range(ctx.pick(2, 6)):
+                st = STYPES[int(rng.integers(0, 6))]
+                ic = ICS[int(rng.integers(0, 4))]
+                sr = float(rng.choice([200.0, 1000.0, 2048.0]))
+                mf = sr / float(rng.uniform(2.5, 11.0))
+                freqs = [mf * float(rng.uniform(0.15, 0.9)), mf][: 1 + int(rng.integers(0, 2))][::-1]
+                if mf not in freqs:
+                    freqs = [mf]
+                sig = _rand_sig(rng, int(rng.choice([40, 64, 97])), int(rng.integers(1, 3)))
+                cases.append(_case_dict(sig, sr, freqs, float(rng.choice([5.0, 10.0, 25.0, 50.0])), st, ic,
+                                        PEAKS[int(rng.integers(0, 6))], tm, bool(rng.integers(0, 2)), rolloff=roll))
     for case in cases:
-        ctx.count("oracle:" + case["kind"])
+        ctx.count("oracle:" + case["kind"] + (":rolloff" if case.get("rolloff", "none") != "none" else "")
+                  + (":" + case["grid"] + ("+Fn" if case.get("Fn") else "") if case["kind"] == "vrs" else ""))
         for f in _oracle_case(case):
             ctx.fail(f["family"], f["what"], f["input"], f["observed"], f["required"])
         if len(ctx.failures) > 12:
             break
     ctx.extra.setdefault("max_error_over_tolerance", {})["oracle-exact-response"] = _ORACLE_ROOM[0]
+    ctx.extra["max_error_over_tolerance"]["oracle-vrs-fine-grid"] = _VRS_ROOM["fine"]
 
 
 def replay(ctx, data):
@@ -899,7 +1071,7 @@ def replay(ctx, data):
     if not f:
         return None
     case = dict(f["input"])
-    for k in ("freq_index", "column", "k", "perm"):
+    for k in ("freq_index", "column", "k", "perm", "Fn_value"):
         case.pop(k, None)
     r = _oracle_case(case)
     return r[0] if r else None
